@@ -173,6 +173,21 @@ def check_defaults(defaults, allowed_fields, scope):
         validate_item(key, value, required_type, scope, validator=validator)
 
 
+def deepcopy_unaliased(obj):
+    """
+    Deep copy in which every mapping and every list is a separate object,
+    even if the input refers to one object from several places (YAML anchors
+    and aliases, or one Python object passed to several Builder calls).
+    Resolution consumes the copy by popping fields from its dicts, so an object
+    shared between two demes, epochs, etc. must not be shared in the copy.
+    """
+    if isinstance(obj, MutableMapping):
+        return {key: deepcopy_unaliased(value) for key, value in obj.items()}
+    if isinstance(obj, list):
+        return [deepcopy_unaliased(value) for value in obj]
+    return copy.deepcopy(obj)
+
+
 def insert_defaults(data, defaults):
     for key, value in defaults.items():
         if key not in data:
@@ -2068,7 +2083,7 @@ class Graph:
             raise TypeError("data is not a dictionary")
 
         # Don't modify the input data dict.
-        data = copy.deepcopy(data)
+        data = deepcopy_unaliased(data)
 
         check_allowed(
             data,
